@@ -66,8 +66,8 @@ def cases(L, tier, seed):
                     X[n // 2] = y
                 for lname, Xl in layouts(X):
                     for th in ((1, 2, 5, 16) if (tier != 'quick' or lname == 'C') else (2,)):
-                        for use_out in (False, True):
-                            out = np.full(n, 7.5) if use_out else None
+                        for use_out in (False, True, 'strided'):
+                            out = (np.full(2 * n, 7.5)[::2] if use_out == 'strided' else np.full(n, 7.5)) if use_out else None
                             c = CL.Public(kind, 'f64' if use_out else 'none')
                             yield c, with_threads(fn, th), dict(X=Xl, y=y.copy(), out=out), (kind, dt, lname, (n, m), th, use_out)
         # error clauses
